@@ -21,6 +21,17 @@ def step (line : String) : String :=
   | ["match", h] => match fromHex h with
     | some bs => toString (matchesPattern bs)
     | none => "bad-op"
+  | "hashpair" :: da :: db :: na :: ps =>
+    match fromHex da, fromHex db, na.toNat?, ps.mapM fromHex with
+    | some dA, some dB, some n, some parts =>
+      if n < 1 ∨ parts.length < n + 1 then "bad-op" else
+      let a := parts.take n
+      let b := parts.drop n
+      -- the uninterpreted sha1 is given by its graph on the two byte streams of this op
+      let sha := fun (bs : List Nat) => if bs == a.flatten then dA else dB
+      let call := fun (p : List (List Nat)) => newHash sha (p.headD []) (p.drop 1)
+      "ok " ++ toHexW (call a) ++ " " ++ toHexW (call b) ++ " " ++ toHexW (call a)
+    | _, _, _, _ => "bad-op"
   | "hash" :: d :: ns :: ins => match fromHex d, fromHex ns, ins.mapM fromHex with
     | some digest, some nsb, some inb => "ok " ++ toHexW (newHash (fun _ => digest) nsb inb)
     | _, _, _ => "bad-op"
